@@ -86,6 +86,7 @@ type Project struct {
 	SoilID   string            `json:"soil_id"`
 	Soil     Soil              `json:"soil"`
 	Rotation []CropEntry       `json:"rotation"`
+	MgmtSplit bool             `json:"mgmt_split,omitempty"` // fertiliser, irrigation and tillage files: another field's event stands behind the first event of this field (two blocks)
 	RotSplit int               `json:"rot_split,omitempty"` // >0: the rotation file lists another field between entry RotSplit-1 and RotSplit of this field
 	Fert     []Fert            `json:"fert,omitempty"`
 	Irr      []Irr             `json:"irr,omitempty"`
@@ -449,22 +450,31 @@ func (p *Project) Write(root string) {
 	w("crop_"+p.ID+".txt", p.RotationTxt())
 	var b strings.Builder
 	b.WriteString("Field_ID  N   Frt date\n")
-	for _, f := range p.Fert {
+	for i, f := range p.Fert {
 		fmt.Fprintf(&b, "%-9s %g %s  %s\n", p.Field, f.Amount, f.Kind, p.ds(f.Date))
+		if p.MgmtSplit && i == 0 && len(p.Fert) > 1 {
+			fmt.Fprintf(&b, "%-9s %g %s  %s\n", "OTHERFLD", 55.0, "KAS", p.ds(f.Date))
+		}
 	}
 	b.WriteString("end\n")
 	w("fert_"+p.ID+".txt", b.String())
 	b.Reset()
 	b.WriteString("Field_ID  Ir N03 date\n          mm mg/l \n")
-	for _, f := range p.Irr {
+	for i, f := range p.Irr {
 		fmt.Fprintf(&b, "%-9s %g  %g %s\n", p.Field, f.MM, f.NConc, p.ds(f.Date))
+		if p.MgmtSplit && i == 0 && len(p.Irr) > 1 {
+			fmt.Fprintf(&b, "%-9s %g  %g %s\n", "OTHERFLD", 33.0, 5.0, p.ds(f.Date))
+		}
 	}
 	b.WriteString("end\n")
 	w("irr_"+p.ID+".txt", b.String())
 	b.Reset()
 	b.WriteString("Field_ID  Ti Typ date\n          cm\n")
-	for _, f := range p.Till {
+	for i, f := range p.Till {
 		fmt.Fprintf(&b, "%-9s %d %d   %s\n", p.Field, f.Depth, f.Typ, p.ds(f.Date))
+		if p.MgmtSplit && i == 0 && len(p.Till) > 1 {
+			fmt.Fprintf(&b, "%-9s %d %d   %s\n", "OTHERFLD", 25, 1, p.ds(f.Date))
+		}
 	}
 	b.WriteString("end\n")
 	w("til_"+p.ID+".txt", b.String())
